@@ -129,9 +129,11 @@ SendComplete(e) ==
     /\ UNCHANGED <<evs, cap, ecap, errq, W, main, hist>>
 
 \* the queue was closed under the producer (the main task has ended)
+\* once a critical error has reached the main task it tears the worker down: from then on a
+\* blocked send may find the queue gone even before the main task is seen to have ended
 SendFail(e) ==
     /\ e \in pending
-    /\ ~QueueOpen
+    /\ (~QueueOpen \/ main = "failing")
     /\ pending' = pending \ {e}
     /\ UNCHANGED <<evs, cap, ecap, queue, errq, W, main, hist>>
 
